@@ -7,7 +7,7 @@ in a scratch VERIF_OUT).  Output: one JSON line per change (file, line, before, 
 Survivors are *candidates*: a change can be equivalent, or break nothing the property states; each survivor has to be
 read before it says anything about a check.  Nothing here is part of a registered check."""
 import json, os, random, re, shutil, subprocess, sys, tempfile
-from concurrent.futures import ThreadPoolExecutor
+from concurrent.futures import ThreadPoolExecutor, as_completed
 
 GROUPS = {
     # name: (files, regen?, checks)
@@ -78,6 +78,7 @@ def sites(path):
     return src, res
 
 
+SNAP = "/verif"  # main() replaces it by a snapshot, so that /verif can be edited while a campaign runs
 ENV = dict(os.environ, GOFLAGS="-mod=mod", GOPROXY="off", GOSUMDB="off", GOTOOLCHAIN="local")
 
 
@@ -102,7 +103,7 @@ def run_one(job):
             rec["status"] = "killed-by-build-or-suite"; return rec
         rec["checks"] = {}
         for c in checks:
-            r = subprocess.run(["/verif/check", c, tier], env=dict(os.environ, VERIF_REPO=d, VERIF_OUT=out, VERIF_PAR=str(par)), capture_output=True, text=True)
+            r = subprocess.run([os.path.join(SNAP, "check"), c, tier], env=dict(os.environ, VERIF_REPO=d, VERIF_OUT=out, VERIF_PAR=str(par), VERIF_STAGE_TIMEOUT="90"), capture_output=True, text=True)
             rec["checks"][c] = r.returncode
             if r.returncode == 1:
                 msg = [l.strip() for l in r.stdout.splitlines() if "pbt.go" in l or "process died" in l or "DATA RACE" in l or "BUILD" in l]
@@ -128,6 +129,13 @@ def main():
         elif a[0] == "--out": outp = a[1]; a = a[2:]
         else: sys.exit("bad arg " + a[0])
     groups = a or list(GROUPS)
+    global SNAP
+    SNAP = tempfile.mkdtemp(prefix="verif-snap-", dir=os.path.expanduser("~"))
+    subprocess.check_call(["rsync", "-a", "--exclude", ".git", "--exclude", "evidence", "--exclude", "replays", "--exclude", "seeded", "/verif/", SNAP + "/"])
+    done = set()
+    if outp and os.path.exists(outp):
+        for l in open(outp):
+            r = json.loads(l); done.add((r["file"], r["line"], r["after"]))
     rnd = random.Random(seed)
     work = []
     for g in groups:
@@ -138,18 +146,21 @@ def main():
             allsites += [(f, i, src[i], new, kind) for i, new, kind in ss]
         rnd.shuffle(allsites)
         for f, i, before, after, kind in allsites[:n]:
+            if (f, i + 1, after.strip()) in done: continue
             work.append((len(work), g, f, i, before, after, kind, regen, checks, tier, max(2, 16 // jobs)))
         print("# group %s: %d candidate sites, %d sampled" % (g, len(allsites), min(n, len(allsites))), flush=True)
     fo = open(outp, "a") if outp else None
     tally = {}
     with ThreadPoolExecutor(jobs) as ex:
-        for rec in ex.map(run_one, work):
+        for fut in as_completed([ex.submit(run_one, w) for w in work]):
+            rec = fut.result()
             tally[(rec["group"], rec["status"])] = tally.get((rec["group"], rec["status"]), 0) + 1
             line = json.dumps(rec)
             if fo: fo.write(line + "\n"); fo.flush()
             if rec["status"] in ("SURVIVED", "broken-run"):
                 print(line, flush=True)
     for k in sorted(tally): print("#", k[0], k[1], tally[k])
+    shutil.rmtree(SNAP, ignore_errors=True)
 
 
 main()
